@@ -26,6 +26,8 @@ def configs(ctx):
                  limit=4000 if q else 200000, properties=props),
         F.Config("damage-typed-2jobs", ["corrupt_other", "check", "repair", "restart", "open_id", "readsp", "update_cache"], 4 if q else 5, "typed", init_jobs=2, init_cache=(False, True),
                  limit=3000 if q else 150000, properties=props),
+        F.Config("damage-reuse-handle", ["corrupt", "open_id", "open_iter", "readsp", "init", "repair", "check"], 5 if q else 6, "int", init_jobs=2, init_cache=(False,),
+                 limit=5000 if q else 200000, properties=("NeverAcceptWrongX", "RepairFrame")),
         F.Config("damage-then-use", OPS + ["init", "open_sp", "setkey", "docset"], 3 if q else 4, "mixed", init_jobs=2, init_cache=(True,), limit=3000 if q else 100000, properties=("NeverAcceptWrongX", "RepairFrame")),
         F.Config("long-random", OPS + ["open_sp", "init", "remove"], 0, "nested", init_jobs=3, init_cache=(False, True), handles=("h1", "h2"),
                  sim_num=40 if q else 2000, sim_depth=25, properties=props),
